@@ -1,0 +1,7 @@
+//go:build !verif
+
+package reader
+
+import "github.com/milvus-io/milvus/pkg/mq/msgstream"
+
+func verifYield(string, *msgstream.MsgPack) {}
